@@ -312,7 +312,9 @@ C05(job) ==
       leaves == {c.node : c \in {rn.calls[k] : k \in {k \in 1..Len(rn.calls) : rn.calls[k].frame # "" /\ rn.calls[k].kind # "graph"}}}
   IN [ status |-> rn.status = rf.status,
        values |-> (rn.status = "completed") => (DOMAIN vn \subseteq DOMAIN vf /\ \A k \in DOMAIN vn : vn[k] = vf[k]),
-       exposed |-> (rn.status = "completed") => \A k \in DOMAIN vf : (k \in Names(job.hidden) \/ k \in DOMAIN vn),
+       \* (a graph-level select narrows a nested graph as a unit: bindings of a wrapper outside the selected
+       \*  scope do not surface, so completeness of the exposed outputs is only claimed without it)
+       exposed |-> (rn.status = "completed" /\ job.flat.selected = Unset) => \A k \in DOMAIN vf : (k \in Names(job.hidden) \/ k \in DOMAIN vn),
        args   |-> (rn.status = "completed") => \A n \in leaves : ArgsBag(rn.calls, n) = ArgsBag(rf.calls, n) ]
 
 (***************************************************************************)
@@ -370,26 +372,29 @@ RECURSIVE SeqRuns(_, _, _, _)
 SeqRuns(job, k, cache, acc) ==
   IF k > Len(job.seq) THEN acc
   ELSE LET w == [WorldOf(job) EXCEPT !.cache = cache, !.cap = job.cap]
-           r == RunProg(job.prog, "", job.provided, w, job.seq[k])
+           alt == job.seq[k] \in {"sync@2", "async@2"}
+           r == RunProg(IF alt THEN job.alt ELSE job.prog, "", job.provided, w, IF job.seq[k] \in {"sync", "sync@2"} THEN "sync" ELSE "async")
        IN SeqRuns(job, k + 1, r.w.cache, Append(acc, r))
 
 C09(job) ==
   LET rs == SeqRuns(job, 1, <<>>, <<>>)
-      un(m) == RunProg(UncachedProg(job.prog), "", job.provided, WorldOf(job), m)
-      frames == AllFrames(job.prog, "")
+      progOf(m) == IF m \in {"sync@2", "async@2"} THEN job.alt ELSE job.prog
+      un(m) == RunProg(UncachedProg(progOf(m)), "", job.provided, WorldOf(job), IF m \in {"sync", "sync@2"} THEN "sync" ELSE "async")
+      framesOf(k) == AllFrames(progOf(job.seq[k]), "")
       allcalls == [k \in 1..Len(rs) |-> rs[k].calls]
-      keyOf(c) == LET nd == NodeByName(FrameProg(frames, c.frame), c.node) IN <<nd.fid, nd.outputs, c.args>>
-      cacheable(c) == c.kind # "graph" /\ NodeByName(FrameProg(frames, c.frame), c.node).cache
-      okcall(c) == LET nd == NodeByName(FrameProg(frames, c.frame), c.node) IN ~Fails(nd, c.idx, [i \in 1..Len(c.args) |-> <<"", c.args[i][1], c.args[i][2]>>])
+      ndOf(k, c) == NodeByName(FrameProg(framesOf(k), c.frame), c.node)
+      keyOf(k, c) == <<ndOf(k, c).fid, ndOf(k, c).outputs, ndOf(k, c).targets, c.args>>
+      cacheable(k, c) == c.kind # "graph" /\ ndOf(k, c).cache
+      okcall(k, c) == ~Fails(ndOf(k, c), c.idx, [i \in 1..Len(c.args) |-> <<"", c.args[i][1], c.args[i][2]>>])
   IN [ transparent |-> \A k \in 1..Len(rs) :
                           /\ rs[k].status = un(job.seq[k]).status
-                          /\ FilterOut(job.prog, rs[k].vals, job.select) = FilterOut(job.prog, un(job.seq[k]).vals, job.select)
+                          /\ FilterOut(progOf(job.seq[k]), rs[k].vals, job.select) = FilterOut(progOf(job.seq[k]), un(job.seq[k]).vals, job.select)
                           /\ rs[k].err = un(job.seq[k]).err,
        once |-> job.cap = 0 =>
                   \A k1, k2 \in 1..Len(rs) : \A i1 \in 1..Len(allcalls[k1]) : \A i2 \in 1..Len(allcalls[k2]) :
                      LET c1 == allcalls[k1][i1]  c2 == allcalls[k2][i2] IN
-                     (cacheable(c1) /\ cacheable(c2) /\ okcall(c1) /\ okcall(c2) /\ <<k1, i1>> # <<k2, i2>>)
-                         => keyOf(c1) # keyOf(c2) ]
+                     (cacheable(k1, c1) /\ cacheable(k2, c2) /\ okcall(k1, c1) /\ okcall(k2, c2) /\ <<k1, i1>> # <<k2, i2>>)
+                         => keyOf(k1, c1) # keyOf(k2, c2) ]
 
 \* dispatch used by the Predict_* configurations
 L1(prop, job) == CASE prop = "C01" -> C01(job)
